@@ -1,7 +1,9 @@
 package main
 
 import (
+	"runtime"
 	"sync"
+	"time"
 	"unsafe"
 
 	"gorgonia.org/tensor"
@@ -286,14 +288,24 @@ func (p *SimPools) Hooks() *tensor.VerifHooks {
 const finCap = 256
 
 type Finalizers struct {
-	n       int
-	objs    [finCap]interface{}
-	dropped [finCap]bool
-	fired   uint64
-	never   uint64
+	n                          int
+	objs                       [finCap]interface{}
+	dropped                    [finCap]bool
+	internal                   [finCap]bool // never handed to the program: considered unreachable once its operation has returned
+	opStart                    int
+	fired                      uint64
+	never                      uint64
+	internalFired, unconfirmed uint64
 }
 
 var F [maxClients]Finalizers
+
+// confirmGC: before the finalizer of an object that the library created for its own use is run, the real
+// garbage collector is asked whether the object is unreachable (it is, unless the library kept it somewhere).
+// Off during exploration (fast, and true of the library as it stands); on whenever a violation is minimised,
+// confirmed or replayed, so that no reported violation rests on a finalizer that a real collector could not
+// have run.
+var confirmGC bool
 
 func resetFinalizers() {
 	for i := range F {
@@ -311,7 +323,66 @@ func (f *Finalizers) Register(obj interface{}) {
 	}
 	f.objs[f.n] = obj
 	f.dropped[f.n] = false
+	f.internal[f.n] = false
 	f.n++
+}
+
+// BeginOp makes room (fired entries go; when the registry is nearly full the oldest unreachable objects are
+// forgotten - their finalizers never run, which is legal) and remembers where this operation's objects start.
+//
+//go:norace
+func (f *Finalizers) BeginOp() {
+	k := 0
+	for i := 0; i < f.n; i++ {
+		if f.objs[i] == nil {
+			continue
+		}
+		f.objs[k], f.dropped[k], f.internal[k] = f.objs[i], f.dropped[i], f.internal[i]
+		k++
+	}
+	for i := k; i < f.n; i++ {
+		f.objs[i] = nil
+	}
+	f.n = k
+	if f.n > finCap-48 {
+		k = 0
+		for i := 0; i < f.n; i++ {
+			if f.dropped[i] && i < finCap/2 {
+				f.never++
+				continue
+			}
+			f.objs[k], f.dropped[k], f.internal[k] = f.objs[i], f.dropped[i], f.internal[i]
+			k++
+		}
+		for i := k; i < f.n; i++ {
+			f.objs[i] = nil
+		}
+		f.n = k
+	}
+	f.opStart = f.n
+}
+
+// EndOp: the objects registered during the operation that the program did not receive (held) are the
+// library's own temporaries - iterators it made to walk an operand - and nothing refers to them any more.
+//
+//go:norace
+func (f *Finalizers) EndOp(held []tensor.Iterator) {
+	for i := f.opStart; i < f.n; i++ {
+		if f.objs[i] == nil || f.dropped[i] {
+			continue
+		}
+		keep := false
+		for _, h := range held {
+			if interface{}(h) == f.objs[i] {
+				keep = true
+			}
+		}
+		if !keep {
+			f.dropped[i] = true
+			f.internal[i] = true
+		}
+	}
+	f.opStart = f.n
 }
 
 // Drop marks obj as unreachable for the program.
@@ -323,14 +394,60 @@ func (f *Finalizers) Drop(obj interface{}) {
 	}
 }
 
+var (
+	gcMu  sync.Mutex
+	gcGen uint64
+	gcGot interface{}
+)
+
+// collectForReal drops the registry's reference to entry i and asks the real collector for the object; it comes
+// back (through a real finalizer that does nothing but hand it over) only if nothing else refers to it.
+func (f *Finalizers) collectForReal(i int) interface{} {
+	gcMu.Lock()
+	gcGen++
+	gen := gcGen
+	gcGot = nil
+	gcMu.Unlock()
+	runtime.SetFinalizer(f.objs[i], func(x interface{}) {
+		gcMu.Lock()
+		if gen == gcGen {
+			gcGot = x
+		}
+		gcMu.Unlock()
+	})
+	f.objs[i] = nil
+	for try := 0; try < 4; try++ {
+		runtime.GC()
+		time.Sleep(time.Duration(try+1) * time.Millisecond)
+		gcMu.Lock()
+		got := gcGot
+		gcMu.Unlock()
+		if got != nil {
+			return got
+		}
+	}
+	return nil
+}
+
 // FireSome runs the finalizers of some dropped objects, as the tape decides.
 func (f *Finalizers) FireSome(r *RNG, num, den int) int {
 	n := 0
 	for i := 0; i < f.n; i++ {
 		if f.dropped[i] && f.objs[i] != nil && r.Chance(num, den) {
-			tensor.VerifRunFinalizer(f.objs[i])
+			obj := f.objs[i]
+			if f.internal[i] && confirmGC {
+				obj = nil
+				if obj = f.collectForReal(i); obj == nil {
+					f.unconfirmed++ // still referenced from somewhere (or the collector was slow): not run, which is legal
+					continue
+				}
+			}
+			tensor.VerifRunFinalizer(obj)
 			f.objs[i] = nil
 			f.fired++
+			if f.internal[i] {
+				f.internalFired++
+			}
 			n++
 		}
 	}
